@@ -555,7 +555,7 @@ class Resource(object):
                     if id_attribute:
                         id_value = obj.eGet(id_attribute)
                         # id attributes shall not be used if the value is unset
-                        if id_value:
+                        if id_value and self._is_reference_token(id_value):
                             uri_fragment = id_value
             else:
                 uri = ''
@@ -584,10 +584,20 @@ class Resource(object):
         if id_attribute:
             etype = id_attribute._eType
             id_att_value = obj.eGet(id_attribute)
-            # the check for ' ' prevents malformed ids to used as references
-            if (id_att_value is not None) and (' ' not in id_att_value):
-                return (etype.to_string(id_att_value), False)
+            # the check prevents malformed ids to used as references
+            if id_att_value is not None:
+                id_string = etype.to_string(id_att_value)
+                if self._is_reference_token(id_string):
+                    return (id_string, False)
         return (obj.eURIFragment(), False)
+
+    @staticmethod
+    def _is_reference_token(value):
+        # an id can stand for its object in a reference only if it is read
+        # back as one token that is neither a path nor an external reference
+        return (isinstance(value, str) and value != ''
+                and value[0] != '/' and '#' not in value
+                and not any(x.isspace() for x in value))
 
     @staticmethod
     def _assign_uuid(obj):
